@@ -26,14 +26,14 @@ def model_runs(ctx, lines):
     return [inject.parse_model(l) for l in out] if out is not None else None
 
 
-def plan(ctx, meta, progs, targets, modes, items=2, per_prog=None):
+def plan(ctx, meta, progs, targets, modes, items=2, per_prog=None, assigns=False):
     """list of cases (prog, target, k, mode) over all landing points after start-up"""
     base = []
     for prog in progs:
         persistent = inject.KINDS[prog][3]
         for t in targets:
             base.append((prog, t, persistent))
-    ml = model_runs(ctx, [inject.model_line(p, t, items, None, None, pers) for p, t, pers in base])
+    ml = model_runs(ctx, [inject.model_line(p, t, items, None, None, pers, assigns=assigns) for p, t, pers in base])
     if ml is None:
         return [], {}
     cases = []
@@ -72,16 +72,16 @@ def plan(ctx, meta, progs, targets, modes, items=2, per_prog=None):
     return cases, undisturbed
 
 
-def run_cases(ctx, cases, items=2):
+def run_cases(ctx, cases, items=2, stateful=False):
     """runs real + model; yields records"""
-    lines = [inject.model_line(p, t, items, k, mode, inject.KINDS[p][3]) for p, t, k, mode in cases]
+    lines = [inject.model_line(p, t, items, k, mode, inject.KINDS[p][3], assigns=stateful) for p, t, k, mode in cases]
     ml = model_runs(ctx, lines)
     sess = inject.Session()
     recs = []
     try:
         for i, (prog, t, k, mode) in enumerate(cases):
             t0 = time.time()
-            r = inject.run_case(sess, prog, t, k, mode, items=items)
+            r = inject.run_case(sess, prog, t, k, mode, items=items, stateful=stateful)
             rec = {'prog': prog, 'target': t, 'k': k, 'mode': mode, 'real': r, 'model': ml[i] if ml else None, 'line': lines[i], 'dt': time.time() - t0}
             recs.append(rec)
     finally:
